@@ -135,7 +135,7 @@ func histories(thorough bool) []*history {
 	// manifest (gc follows f/m as in the introducer loop); thorough also runs the ones that merge with late removal
 	depth := 5
 	if thorough {
-		depth = 6
+		depth = 7
 	}
 	var gen func(prefix []string, mem, file int)
 	seen := map[string]bool{}
